@@ -115,6 +115,13 @@ pub fn encode<const B: usize, const L: usize>(ws: &mut WriteSeam, p: &Plan, vals
             ws.ctx.violate("LEN", format!("ssz_bytes_len() = {} for Uint<{B}> (BYTES = {nb})", u.ssz_bytes_len()));
         }
     }
+    if B == 64 {
+        for v in vals {
+            if (num::to_u128(v).unwrap() as u64).as_ssz_bytes() != num::le_padded(v, 8) {
+                ws.ctx.violate("HARNESS", "reference SSZ encoding disagrees with ssz's own u64");
+            }
+        }
+    }
     match p.flavour {
         0 => {
             // ssz_append must append (D-PREFILL lives in the Vec it is handed)
